@@ -81,6 +81,14 @@ def space(tier):
         if p["name"] in line_names:
             units.append(({"program": p, "cfg": {"env_kinds": [], "line_files": [_exm.__file__], "grace": 1.0}},
                           {"thread": 1, "total": 1}, cap))
+    # lost wake-ups: up to two stalls (a runnable thread loses the CPU for 250 ms while the others go on) placed at
+    # signalling operations (Event.set/clear, Condition.notify, Queue.put, Future.set_result, Semaphore.release)
+    for kind, p in programs(tier):
+        if kind == "grid" and (not quick or ".cb" in p["name"]):
+            for lat in ((0.0,) if quick else (0.0, 0.3)):
+                units.append(({"program": p, "cfg": {"env_kinds": [], "grace": 1.0, "api_latency": lat, "timer_choices": False,
+                                                     "stall": [0.25], "stall_ops": ["signal"] if quick else ["signal", "wait"]}},
+                              {"stall": 2, "total": 2}, cap))
     for kind, p in programs(tier):
         base = {"env_kinds": ["deliver"], "spurious": True}
         if kind == "grid":
@@ -109,6 +117,6 @@ simcheck.install(globals(), "C07", [monitors.judge_c07], space,
                  "functions run 0/2/5 virtual seconds, callback, invoke with/without timeout, wait_for_condition with "
                  "delay 1/0, retrying step with delay 2/0, wait_for_callback); 7 three-branch shapes; nesting 2; "
                  "max_concurrency; zero branches/items; one preemption at any line of concurrency/executor.py on 7 shapes; a 14-program grid in which a sibling parks 0.8..1.4 s after start while a 1 s "
-                 "timed-suspended branch becomes due (with 0 and 300 ms API latency, one preemption); threads keep running for "
+                 "timed-suspended branch becomes due (with 0 and 300 ms API latency, one preemption; and with <=2 stalls of 250 ms at signalling operations); threads keep running for "
                  "1 virtual second after the wrapper returned so that work started after PENDING is seen; all delivery orders of timers/callbacks/invokes incl. one "
                  "spurious re-invocation; every single crash point; policies rtb/low/high; +1 scheduling/timer deviation")
